@@ -135,6 +135,15 @@ def check(ix, rep):
     for qn, c in sorted(M.operation_classes(ix, 'dense').items()):
         ne += emptyidx.check_class(rep, c, 'dense-online')
     rep.floor('constant indexes into chunks/buffers of dense-time online operations', ne, 45)
+    # dense-time sample lists are compressed independently: a loop counter indexes only the list the loop runs over
+    npi = emptyidx.check_parallel_index(ix, rep, ('rtamt/semantics/stl/dense_time/', 'rtamt/semantics/iastl/dense_time/', 'rtamt/semantics/arithmetic/dense_time/'), 'dense')
+    rep.floor('dense-time loops over sample positions', npi, 15)
+    # offline handlers hand lists to each other, not one-shot iterators
+    nrl = 0
+    for m_ in M.monitors(ix):
+        if m_.mode == 'offline':
+            nrl += emptyidx.check_handlers_return_lists(ix, rep, m_)
+    rep.floor('offline handlers checked for returning lists', nrl, 60)
     # ---- bounded discrete-time operators: every list / ring-buffer index in range, no min()/max() of an empty slice
     from sa.rules import windowrule
     by = {m.kind: m for m in M.standard_monitors(ix)}
